@@ -46,7 +46,7 @@ func opsFor[T any](key string) structOps {
 var buildTypes = []structOps{
 	opsFor[Args]("Args"), opsFor[Shared]("Shared"), opsFor[List]("List"), opsFor[Tree]("Tree"), opsFor[Dir]("Dir"), opsFor[Catalog]("Catalog"),
 	opsFor[Point]("Point"), opsFor[Tagged]("Tagged"), opsFor[Ping]("Ping"), opsFor[Holder]("Holder"), opsFor[Registry]("Registry"), opsFor[Deep4]("Deep4"),
-	opsFor[Entry]("Entry"), opsFor[Sub]("Sub"),
+	opsFor[Entry]("Entry"), opsFor[Sub]("Sub"), opsFor[Twins]("Twins"), opsFor[Vocab]("Vocab"), opsFor[VocabInner]("VocabInner"),
 }
 
 func buildType(key string) (structOps, bool) {
@@ -277,7 +277,8 @@ func freshBuild(s toolSpec) builtJSON {
 	return b
 }
 
-var extraNames = []string{"api_key", "limit", "verbose", "filter", "ids", "dry_run", "trace-id", "x"}
+var extraNames = []string{"api_key", "limit", "verbose", "filter", "ids", "dry_run", "trace-id", "x",
+	"definitions", "$defs", "$ref", "properties", "type", "required", "items", "$schema"} // schema vocabulary as parameter names
 
 func (r *runner) genExtra(typeNames []string) extraSpec {
 	rr := r.r
@@ -312,7 +313,7 @@ func (r *runner) genExtra(typeNames []string) extraSpec {
 		}
 	case "object":
 		if rr.Intn(2) == 0 {
-			e.Props = []string{"k", "v", "w"}[:1+rr.Intn(3)]
+			e.Props = [][]string{{"k", "v", "w"}, {"definitions", "$defs", "$ref"}, {"properties", "definitions", "enum"}}[rr.Intn(3)][:1+rr.Intn(3)]
 		}
 	case "array":
 		e.Items = []string{"", "string", "integer"}[rr.Intn(3)]
